@@ -387,6 +387,12 @@ class Built:
             return (self.fn_preds if k == 'fnv' else self.cls_preds)[t[1]](self.term(t[2]))
         if k == 'nestedc':
             # a nested constructor argument of a rule head: C(field=e) - written in rule mode
+            if self.case.get('nested_body') is not None:
+                # the SAME predicate-form variable stands in the head and in the body (round 18): one object
+                memo = self.__dict__.setdefault('nested_memo', {})
+                if repr(t) not in memo:
+                    memo[repr(t)] = self.classes[t[1]](**{t[2]: self.term(t[3])})
+                return memo[repr(t)]
             return self.classes[t[1]](**{t[2]: self.term(t[3])})
         if k == 'subq':
             # a sub-query used as an OPERAND: ('subq', 'an'|'the', vid, cond...)
